@@ -64,6 +64,11 @@ func (m *modEngine) mutatesParamSpec(fn *ssa.Function, idx int, spec string) (bo
 				if b.Name() == "copy" && len(c.Args) > 0 && derived(c.Args[0]) {
 					res, why = true, "copy into it at "+m.w.PosOf(in)
 				}
+				// append(s, ...) stores behind len(s) into s's backing array whenever the capacity allows: with s a
+				// re-sliced prefix of the input (v[:0], v[:i]) that overwrites the input's own elements
+				if b.Name() == "append" && len(c.Args) > 0 && derived(c.Args[0]) && reslicedPrefix(c.Args[0], 0) {
+					res, why = true, "append into a re-sliced prefix of it at "+m.w.PosOf(in)
+				}
 				return
 			}
 			args := c.Args
@@ -145,6 +150,64 @@ func rootsAtDeep(v ssa.Value, root ssa.Value, depth int) bool {
 		}
 	}
 	return false
+}
+
+// reslicedPrefix: v is (through phis and earlier appends) a slice expression x[:h] (an upper bound and no
+// capacity limit): appending to it writes into x's elements from h on.
+func reslicedPrefix(v ssa.Value, depth int) bool {
+	if depth > 8 {
+		return false
+	}
+	switch x := v.(type) {
+	case *ssa.Slice:
+		if _, isSlice := x.X.Type().Underlying().(*types.Slice); isSlice && x.High != nil && x.Max == nil {
+			return true
+		}
+		return reslicedPrefix(x.X, depth+1)
+	case *ssa.Phi:
+		for _, e := range x.Edges {
+			if reslicedPrefix(e, depth+1) {
+				return true
+			}
+		}
+	case *ssa.Call:
+		if b, ok := x.Common().Value.(*ssa.Builtin); ok && b.Name() == "append" && len(x.Call.Args) > 0 {
+			return reslicedPrefix(x.Call.Args[0], depth+1)
+		}
+	}
+	return false
+}
+
+// ISLICE-LEN (C05): the converted slice has exactly the source's elements.
+func ruleISliceLen(w *World, r *Report) {
+	r.Rule("ISLICE-LEN", "core.ISlice (which turns typed slices into []interface{} for the matcher and the term extractor) sizes its result by the source's length: no make() in it takes its length from reflect.Value.Cap or cap() — a typed slice with spare capacity would be cast with trailing nil elements, and two equal facts would match differently", 1)
+	fn := w.Func("core", "ISlice")
+	isCap := func(v ssa.Value) bool {
+		c, ok := v.(*ssa.Call)
+		if !ok {
+			return false
+		}
+		if b, ok := c.Common().Value.(*ssa.Builtin); ok {
+			return b.Name() == "cap"
+		}
+		f := c.Common().StaticCallee()
+		return f != nil && f.Pkg != nil && f.Pkg.Pkg.Path() == "reflect" && f.Name() == "Cap"
+	}
+	key := "fn=" + fname(fn)
+	bad := false
+	n := 0
+	allInstrs(fn, func(in ssa.Instruction) {
+		if ms, ok := in.(*ssa.MakeSlice); ok {
+			n++
+			if dependsOn(ms.Len, isCap) {
+				r.violation("ISLICE-LEN", key, w.PosOf(in), "the length of the converted slice is taken from the source's capacity")
+				bad = true
+			}
+		}
+	})
+	if !bad {
+		r.ok("ISLICE-LEN", key, w.Pos(fn.Pos()), itoa(n)+" make() calls, none sized by a capacity")
+	}
 }
 
 func ruleModPure(w *World, r *Report) {
@@ -499,6 +562,6 @@ func init() {
 	register(&propertySpec{
 		ID:      "C05",
 		Explain: "Static MOD (may-modify) analysis for the last clause of C05 only: neither the pattern, the data nor the caller's initial bindings are modified by matching. Soundness and completeness of matching itself live in the sheens dependency and quantify over data: not decided.",
-		Rules:   []ruleFn{ruleModPure},
+		Rules:   []ruleFn{ruleModPure, ruleISliceLen},
 	})
 }
